@@ -51,6 +51,31 @@ type Case struct {
 	Prev int `json:"prev,omitempty"`
 	// BufCap > 0: j2t runs through DoInto with a caller buffer of capacity BufCap-1
 	BufCap int `json:"buf_cap,omitempty"`
+	// CutExtra: fields the cutting target declares in addition (absent from every message): the fill rules then apply at every
+	// depth, also inside list elements and map values, with a target descriptor that differs from the source
+	CutExtra []ExtraField `json:"cut_extra,omitempty"`
+}
+
+type ExtraField struct {
+	Struct string      `json:"struct"`
+	F      tm.FieldDef `json:"f"`
+}
+
+func superset(u *tm.Universe, extra []ExtraField) *tm.Universe {
+	if len(extra) == 0 {
+		return u
+	}
+	c := &tm.Universe{Root: u.Root, Extra: u.Extra}
+	for _, sd := range u.Structs {
+		n := tm.StructDef{Name: sd.Name, Fields: append([]tm.FieldDef(nil), sd.Fields...)}
+		for _, e := range extra {
+			if e.Struct == sd.Name && n.Field(e.F.ID) == nil {
+				n.Fields = append(n.Fields, e.F)
+			}
+		}
+		c.Structs = append(c.Structs, n)
+	}
+	return c
 }
 
 func (cs Case) prevOpts() conv.Options {
@@ -369,9 +394,14 @@ func check(c *pbt.Ctx, cs Case) {
 	// ---- generic cutting onto an equal, separately parsed descriptor
 	{
 		c.Step("MarshalTo opts=%+v", cs.O)
-		to, err := tm.Compile(cs.U.Render()+"\n// cutting target\n", popts)
+		tu := cs.U
+		if cs.WireUnknown == 0 && len(cs.CutExtra) > 0 {
+			tu = superset(cs.U, cs.CutExtra)
+			c.Class("cut:target-superset")
+		}
+		to, err := tm.Compile(tu.Render()+"\n// cutting target\n", popts)
 		if err != nil {
-			c.Failf("harness-idl", "IDL rejected: %v", err)
+			c.Failf("harness-idl", "IDL rejected: %v\n%s", err, tu.Render())
 		}
 		if cs.U.Root.K == tm.STRUCT || cs.U.Root.K.IsContainer() {
 			msg := append(make([]byte, 0, len(cs.Msg)+16), cs.Msg...)
@@ -381,7 +411,7 @@ func check(c *pbt.Ctx, cs Case) {
 			if !c.Protect("", func() { out, err = val.MarshalTo(to.Root, gopts) }) {
 				return
 			}
-			wantCut, cerr := fill(cs.V, cs.U.Root, cs.U, cs.O, ruleCut)
+			wantCut, cerr := fill(cs.V, tu.Root, tu, cs.O, ruleCut)
 			mustUnknown := cs.WireUnknown > 0 && cs.O.Disallow
 			switch {
 			case mustUnknown || cerr != nil:
@@ -400,11 +430,11 @@ func check(c *pbt.Ctx, cs Case) {
 					return
 				}
 				d := tm.DiffFieldsByID(wantCut, got)
-				if d != "" && !cs.O.WriteDefault && !cs.O.NotCheckRequire && optionalWithDefaultAbsent(cs.V, cs.U.Root, cs.U, cs.O) {
+				if d != "" && !cs.O.WriteDefault && !cs.O.NotCheckRequire && optionalWithDefaultAbsent(cs.V, tu.Root, tu, cs.O) {
 					// tolerated alternative: optional fields with a parsed default written although WriteDefault is off
 					alt := cs.O
 					alt.WriteOptional = false
-					w2, _ := fillCutAlt(cs.V, cs.U.Root, cs.U, cs.O)
+					w2, _ := fillCutAlt(cs.V, tu.Root, tu, cs.O)
 					if w2 != nil && tm.DiffFieldsByID(w2, got) == "" {
 						d = ""
 					}
@@ -675,6 +705,21 @@ func gen(t *rapid.T) Case {
 	}
 	cs.Msg = tm.Encode(wire)
 	cs.FreshPools = rapid.IntRange(0, 15).Draw(t, "freshPools") == 0
+	if rapid.IntRange(0, 2).Draw(t, "cutSuperset") == 0 {
+		types := []*tm.Type{{K: tm.I32}, {K: tm.STRING}, {K: tm.BOOL}, {K: tm.LIST, Elem: &tm.Type{K: tm.I32}}, {K: tm.MAP, Key: &tm.Type{K: tm.STRING}, Elem: &tm.Type{K: tm.I64}}, {K: tm.DOUBLE}}
+		for i := range u.Structs {
+			if rapid.Bool().Draw(t, "extraHere") {
+				continue
+			}
+			id := int16(rapid.IntRange(1, 400).Draw(t, "extraID"))
+			if u.Structs[i].Field(id) != nil {
+				continue
+			}
+			cs.CutExtra = append(cs.CutExtra, ExtraField{Struct: u.Structs[i].Name, F: tm.FieldDef{ID: id, Name: fmt.Sprintf("zz_cut_%d", i),
+				Req: []int{tm.ReqDefault, tm.ReqDefault, tm.ReqDefault, tm.ReqOptional, tm.ReqRequired}[rapid.IntRange(0, 4).Draw(t, "extraReq")],
+				T:   types[rapid.IntRange(0, len(types)-1).Draw(t, "extraType")]}})
+		}
+	}
 	if rapid.IntRange(0, 2).Draw(t, "smallBuffer") == 0 {
 		cs.BufCap = 1 + []int{0, 1, 8, 16, 24, 32, 48, 64, 100, 128, 256}[rapid.IntRange(0, 10).Draw(t, "bufCap")]
 	}
@@ -688,7 +733,7 @@ func gen(t *rapid.T) Case {
 func Prop(name string) pbt.Prop[Case] {
 	return pbt.Prop[Case]{
 		Name:  name,
-		Rule:  "generated IDL with any mix of requiredness and scalar defaults at any depth (ids beyond 64/256/32767, recursion) parsed with SetOptionalBitmap x UseDefaultValue; inputs presenting any subset of the fields (absent, null, present; required ones may be missing; unknown members / undeclared wire fields) x all 2^4 combinations of WriteRequireField/WriteDefaultField/WriteOptionalField/DisallowUnknownField (generic: WriteDefault/NotCheckRequireNess/DisallowUnknow), in a third of the cases installed through SetOptions on converters created with another combination; in a quarter of the cases the document starts with a list of 40..700 one-digit i64 (output four times the input: the output buffer grows while structs are open); j2t in a third of the cases through DoInto with a caller buffer of 0..256 bytes (grown while structs are open); the harness's truth-table model gives, per struct instance, the error or the exact set of fields with their values (present ones unchanged, absent ones filled with the parsed default or the zero value); j2t output, t2j output and generic MarshalTo onto an equal separately parsed descriptor are decoded and compared field by field (order of members free); error codes ErrMissRequiredField / ErrUnknownField; non-trivial = some declared field absent",
+		Rule:  "generated IDL with any mix of requiredness and scalar defaults at any depth (ids beyond 64/256/32767, recursion) parsed with SetOptionalBitmap x UseDefaultValue; inputs presenting any subset of the fields (absent, null, present; required ones may be missing; unknown members / undeclared wire fields) x all 2^4 combinations of WriteRequireField/WriteDefaultField/WriteOptionalField/DisallowUnknownField (generic: WriteDefault/NotCheckRequireNess/DisallowUnknow), in a third of the cases installed through SetOptions on converters created with another combination; in a quarter of the cases the document starts with a list of 40..700 one-digit i64 (output four times the input: the output buffer grows while structs are open); j2t in a third of the cases through DoInto with a caller buffer of 0..256 bytes (grown while structs are open); the harness's truth-table model gives, per struct instance, the error or the exact set of fields with their values (present ones unchanged, absent ones filled with the parsed default or the zero value); j2t output, t2j output and generic MarshalTo onto a separately parsed descriptor (equal, or in a third of the cases declaring additional absent fields in some structs, so that the rules apply with a differing target at every depth incl. list elements and map values) are decoded and compared field by field (order of members free); error codes ErrMissRequiredField / ErrUnknownField; non-trivial = some declared field absent",
 		Gen:   gen,
 		Check: check,
 	}
